@@ -128,7 +128,9 @@ func (c *Ctx) rulesC04(a *coreAnchors, la *LockAnalysis) {
 		key := fmt.Sprintf("%s writes queue%s", fk, nth(cnt[fk]-1))
 		kind, ok := allowedW[fk]
 		if !ok {
-			kind, ok = allowedW[c.hostKey(w.Fn)]
+			if hk, found := c.hostKeyIn(w.Fn, func(k string) bool { _, ok := allowedW[k]; return ok }); found {
+				kind, ok = allowedW[hk], true
+			}
 		}
 		if fk == pm+":New" {
 			continue
